@@ -52,9 +52,15 @@ TABLE = {
          (("field", P1, "pid"), ("field", ("call", "<std::vec::Vec<T, A> as std::ops::Index<I>>::index", (("field", P1, "threads"), P2)), "tid"))),
         "the registers of threads[index].tid of this dumper's process", ("C04", "C06")),
     "<mem_writer::Buffer as std::ops::Deref>::deref": (("field", P1, "inner"), "the whole image", ("C09", "C16")),
+    "mem_writer::<impl std::convert::From<mem_writer::Buffer> for std::vec::Vec<u8>>::from": (("field", P1, "inner"), "the whole image, as built", ("C16", "C09", "C01")),
     "linux::module_reader::DynIter::new": (("agg", "DynIter", (("data", P1), ("offset", ("const", 0, "usize")), ("ctx", P2))), "a walk over the given bytes from their first byte with the given context", ("C14",)),
     "linux::dumper_cpu_info::x86_mips::CpuInfoEntry::new": (("agg", "CpuInfoEntry", (("info_name", P1), ("value", P2), ("found", P3))), "the entry as given", ("C18",)),
 }
+
+
+NO_CALLS = {AUXV + "get_program_header_count", AUXV + "get_program_header_address", AUXV + "get_linux_gate_address", AUXV + "get_entry_address",
+            "dir_section::DirSection::position", "<mem_writer::Buffer as std::ops::Deref>::deref",
+            "mem_writer::<impl std::convert::From<mem_writer::Buffer> for std::vec::Vec<u8>>::from"}
 
 
 def rule_accessors(ctx, P, R=None):
@@ -68,6 +74,8 @@ def rule_accessors(ctx, P, R=None):
             continue
         outs = return_origins(ctx.prog, fn)
         short = "::".join(fn.split("::")[-2:]).replace("<impl linux::thread_info::x86::ThreadInfoX86>", "ThreadInfo") if not fn.startswith("<") else "Buffer::deref"
+        if "From<mem_writer::Buffer>" in fn:
+            short = "Vec::from(Buffer)"
         if not outs:
             ctx.unproven(R, (short,), b.where(0), "cannot enumerate what %s returns" % short)
             continue
@@ -77,6 +85,14 @@ def rule_accessors(ctx, P, R=None):
         vals = [e for e in alts_ if not (e[0] == "agg" and e[2] == "Err")]
         ok = bool(vals) and all(_match(e, want) for e in vals)
         ctx.check(ok, R, (short,), b.where(0), "%s is %s" % (short, what), "%s is not %s: it returns %s" % (short, what, [show(e)[:90] for e in vals]))
+        # a value handed out "as is" is also not edited in place on the way (the origin of a local does not change when it is mutated
+        # through `&mut`): a plain field hand-out makes no calls at all
+        if fn in NO_CALLS:
+            from engine.mir import CalleeView
+            calls = [(CalleeView(t["callee"]).short or "?").split("::")[-1] for _, t in b.calls()]
+            calls = [c for c in calls if not c.startswith("drop") and c not in ("deref", "as_slice", "as_ref", "borrow", "clone")]
+            ctx.check(not calls, R, (short, "untouched"), b.where(0), "%s hands the value out without calling anything on it" % short,
+                      "%s calls %s before handing the value out: what the caller receives is an edited copy (truncated, filtered, re-ordered), not %s" % (short, calls[:4], what))
     ctx.floor(R, "accessors and pass-through wrappers", n, sum(1 for v in TABLE.values() if P in v[2]))
 
 
